@@ -629,6 +629,63 @@ fn predefined(i: usize) -> TableState {
     })
 }
 
+/// A described table closely related to the predefined distribution of table `i` (0 LL, 1 OF, 2 ML):
+/// variant 0 the longest proper prefix whose probabilities sum to a power of two >= 32, 1 the
+/// predefined distribution itself spelled out, 2 the predefined one extended by further symbols
+/// (sum raised to the next power of two on symbol 0), 3 the predefined one with two entries
+/// swapped (same shape, other mapping). None if a symbol the block uses would get no probability.
+pub fn derived_from_predefined(i: usize, variant: u32, used: &[u8]) -> Option<NCount> {
+    let (dlog, d): (u8, &[i16]) = match i {
+        0 => (LL_DEFAULT_LOG, &LL_DEFAULT),
+        1 => (OF_DEFAULT_LOG, &OF_DEFAULT),
+        _ => (ML_DEFAULT_LOG, &ML_DEFAULT),
+    };
+    let max_sym = [35usize, 31, 52][i];
+    let max_log = [9u8, 8, 9][i];
+    let weight = |p: i16| if p == -1 { 1i32 } else { p as i32 };
+    let mut probs: Vec<i16> = d.to_vec();
+    let mut log = dlog;
+    match variant % 4 {
+        0 => {
+            let mut best = None;
+            let mut sum = 0i32;
+            for (k, p) in d.iter().enumerate() {
+                sum += weight(*p);
+                if k + 1 < d.len() && sum >= 32 && (sum as u32).is_power_of_two() {
+                    best = Some((k + 1, sum));
+                }
+            }
+            let (len, sum) = best?;
+            probs.truncate(len);
+            log = (sum as u32).trailing_zeros() as u8;
+        }
+        1 => {}
+        2 => {
+            let extra = (1 + (variant as usize >> 2) % 4).min(max_sym + 1 - probs.len());
+            if extra == 0 || dlog >= max_log {
+                return None;
+            }
+            for _ in 0..extra {
+                probs.push(1);
+            }
+            log = dlog + 1;
+            let sum: i32 = probs.iter().map(|p| weight(*p)).sum();
+            let add = (1i32 << log) - sum;
+            let first = probs.iter().position(|p| *p > 0)?;
+            probs[first] += add as i16;
+        }
+        _ => {
+            let a = (variant as usize >> 2) % probs.len();
+            let b = (a + 1 + (variant as usize >> 8) % (probs.len() - 1)) % probs.len();
+            probs.swap(a, b);
+        }
+    }
+    if used.iter().any(|&u| (u as usize) >= probs.len() || probs[u as usize] == 0) {
+        return None;
+    }
+    Some(NCount { log, probs })
+}
+
 fn encode_compressed_block(c: &CompSpec, eb: &ExecBlock, st: &mut SynthState) -> Vec<u8> {
     let mut out = vec![];
     encode_literals(c, &eb.lits, st, &mut out);
@@ -699,6 +756,12 @@ fn encode_compressed_block(c: &CompSpec, eb: &ExecBlock, st: &mut SynthState) ->
                     table: vec![],
                     log: 0,
                 };
+            }
+            2 if c.tables[i].1 % 8 == 5 && derived_from_predefined(i, c.tables[i].1 >> 3, &distinct).is_some() => {
+                // a described table that is a close relative of the predefined one
+                let nc = derived_from_predefined(i, c.tables[i].1 >> 3, &distinct).unwrap();
+                table_bytes.extend_from_slice(&fse::write_ncount(&nc));
+                st.tabs[i] = TableState::from_nc(nc);
             }
             2 => {
                 let (req_log, seed) = c.tables[i];
